@@ -17,6 +17,13 @@ AUTH = dict(pkg=".", test="TestVerifAuthExhaustive", name="auth", diff=True)
 
 SRVWRITE = dict(pkg="./server", test="TestVerifServerWritePaths", name="srvwrite", diff=False)
 
+SRVAC = dict(pkg="./server", test="TestVerifServerActionCache", name="srvac", diff=True)
+SRVACDEPS = dict(pkg="./server", test="TestVerifServerACDeps", name="srvacdeps", diff=True)
+SRVKEYS = dict(pkg="./server", test="TestVerifServerKeyspaces", name="srvkeys", diff=False)
+PARSERS = dict(pkg="./server", test="TestVerifParsers", name="parsers", diff=True)
+BYTESTREAM = dict(pkg="./server", test="TestVerifByteStream", name="bytestream", diff=True)
+HANDLERS = dict(pkg="./server", test="TestVerifHandlersNil", name="handlers", diff=False)
+
 COMMON_TB = [
     "goroutine scheduling, sync.Mutex and the file system are modelled (atomic lock regions, process-visible file state), not verified",
 ]
@@ -71,6 +78,27 @@ PROPS = {
         assumptions=["LDAP authentication (experimental) is not modelled"],
         level_text="Decision model of the HTTP wrappers / certificate checks and gRPC interceptors; theorems for every configuration, endpoint, credential state and every gRPC method name (universally quantified); the real startHttpServer/startGrpcServer enumerated exhaustively over the whole finite domain against the model.",
         level_note="Lean 4 kernel; readOnlyMethods / health name / registered services regenerated from the source (Bridge.Auth); the correspondence is exhaustive, not sampled.", technique=TECH),
+    "C06": dict(
+        lean="BR.Props.C06", runs=[SRVACDEPS], trusted_base=["protobuf decoding of stored ActionResult / Tree blobs is a parameter (treeOf)"], assumptions=[],
+        level_text="Theorems on M8: a hit implies every referenced blob (tree blobs, tree root/child files, non-inlined output files, stdout, stderr) is present; absence yields a miss, never an error or partial result; all present yields a hit. Server-level oracle over every subset of absent blobs; the decision compared with the model.",
+        level_note=NOTE + "the fail-fast presence check is C10's model; recency refresh of dependencies is checked at the disk level.", technique=TECH),
+    "C11": dict(
+        lean="BR.Props.C11", runs=[SRVAC], trusted_base=["protobuf / protojson codecs (round-trip law assumed, real ones exercised by the harness)"], assumptions=[],
+        level_text="Theorems on M8's validator: each invalid class is rejected wherever it occurs, acceptance iff every component is well formed; validator compared with validate.ActionResult on generated messages; server oracle: rejected => nothing served, accepted => served equal modulo worker name, JSON = proto, latest wins.",
+        level_note=NOTE + "the validator's verdicts are compared message by message.", technique=TECH),
+    "C14": dict(
+        lean="BR.Props.C14", runs=[BLOB, PARSERS, HANDLERS, BYTESTREAM], trusted_base=COMMON_TB + ["third-party decoders, the Go runtime and grpc-go are outside the model"],
+        assumptions=["memory exhaustion and real-time hangs cannot be exhibited by the model"],
+        level_text="Partial. Theorems: casblob readers total on every byte string, resource-name parsers total, validator and GetTree walk handle absent sub-messages, Write answers every message sequence. Harness: every handler called in-process under recover with absent sub-messages and ill-formed stored blobs; mutated stored files; goroutine/reservation leak oracle.",
+        level_note=NOTE + "partial: goroutine life cycle, third-party panics and resource exhaustion are checked by oracle only.", technique=TECH),
+    "C15": dict(
+        lean="BR.Props.C15", runs=[SRVKEYS, PARSERS, DISK], trusted_base=["SHA-256 as an opaque function with an explicit no-collision hypothesis"], assumptions=[],
+        level_text="Theorems on M3/M4: LookupKey injective in (key space, hash), file paths of different key spaces disjoint, mangled keys equal iff (key, instance) equal, the HTTP path prefix is the gRPC instance name; server oracle over instance names x both front ends x mangling on/off; URL parser compared with the model.",
+        level_note=NOTE + "no-collision hypothesis explicit.", technique=TECH),
+    "C16": dict(
+        lean="BR.Props.C16", runs=[BYTESTREAM, PARSERS], trusted_base=["grpc-go stream delivery"], assumptions=[],
+        level_text="Theorems on M10: early return for existing blobs, failure for non-zero first offset / bad or empty name / over-limit size / more or fewer bytes than declared, success commits exactly the declared size, parsers accept every conformant name with any instance prefix and trailing metadata; the real Write compared with writeRPC on generated message sequences.",
+        level_note=NOTE + "the three-goroutine schedule is abstracted to the message sequence.", technique=TECH),
 }
 
 _root = os.path.dirname(os.path.dirname(os.path.abspath(__file__)))
